@@ -62,12 +62,12 @@ fn families(k: usize, seed: u64, thorough: bool) -> Vec<Fam> {
     big2[1500] = comp(big2[1500]);
     v.push(Fam { name: "3kb genome", samples: vec![vec![big], vec![big2]], other: vec![pool[0].clone()] });
     if [31usize, 33].contains(&k) {
-        // more rows than 2^17: a 70 kb genome and a copy with a substitution every 23 bases (nearly every k-mer of
-        // either is absent from the other), so that anything done in blocks of rows meets several blocks
+        // more rows than 2^17: a 70 kb genome and a copy with a substitution every 23 bases of its first 40 kb, so that anything done in blocks of rows meets several blocks
         static HUGE: std::sync::OnceLock<Vec<u8>> = std::sync::OnceLock::new();
         let huge = HUGE.get_or_init(|| repeat_free(70_000, 15, 0, seed + 6)).clone();
         let mut huge2 = huge.clone();
-        for p in (11..huge2.len()).step_by(23) {
+        // diverged in the first 40 kb (about 80 000 rows present in one sample only), identical behind (constant rows)
+        for p in (11..40_000).step_by(23) {
             huge2[p] = comp(huge2[p]);
         }
         v.push(Fam { name: "70kb genomes", samples: vec![vec![huge], vec![huge2]], other: vec![pool[0].clone()] });
